@@ -306,5 +306,10 @@ def run(ctx):
                         f'under which tables are stored): the lookup misses and the operation is skipped', f.loc)
     ctx.floor('C15.R7 functions that look tables up by name', n7, 7)
 
+    # ---------------------------------------------------------------- R8 / R9 key derivation and affectedness of the hash indexes
+    from . import shared
+    shared.hash_key_rule(ctx, 'C15.R8', lambda f: f.nice.startswith('vibesql_storage::table::'), floor=12)
+    shared.quantifier_rule(ctx, 'C15.R9', lambda f: f.nice.startswith('vibesql_storage::table::'), control_floor=2)
+
     ctx.assumptions.append('a `for` loop entered after the mutation iterates at least once (collect-then-apply idiom)')
     ctx.assumptions.append('the maintenance calls compute correct keys and positions (value-level; not decided)')
